@@ -557,6 +557,38 @@ def generic_lowrank(rng, shape, r):
             return A
 
 
+def feasible(ranks):
+    return all(r <= int(np.prod([q for l, q in enumerate(ranks) if l != j])) for j, r in enumerate(ranks))
+
+
+def rank_profile_tensor(rng, d=None, singleton=None):
+    """Tensor of exact multilinear rank (r_1..r_d) with generic dyadic factors and core; the profile
+    includes modes whose rank is exhausted before the others (rank 1 in an early mode, singleton axes in
+    non-last positions).  Returns (A, ranks); every matricization has sigma_r/sigma_1 >= 1e-3 and exactly
+    rank r_j (checked by SVD, rejection otherwise)."""
+    while True:
+        dd = d or rng.choice([2, 3, 3, 4])
+        ranks = [rng.choice([1, 2, 3]) for _ in range(dd)]
+        if singleton is not None:
+            ranks[singleton % dd] = 1
+        if not feasible(ranks):
+            continue
+        shape = [max(r, rng.randint(1, 5)) for r in ranks]
+        if singleton is not None:
+            shape[singleton % dd] = 1
+        A = np.array([rng.choice([-1.0, 1.0]) * rng.randint(64, 128) / 64.0 for _ in range(int(np.prod(ranks)))]).reshape(ranks)
+        for k, (n_, r_) in enumerate(zip(shape, ranks)):
+            U = np.array([[rng.choice([-1.0, 1.0]) * rng.randint(64, 128) / 64.0 for _ in range(r_)] for _ in range(n_)])
+            A = np.moveaxis(np.tensordot(U, A, axes=([1], [k])), 0, k)
+        ok = True
+        for k in range(dd):
+            sv = np.linalg.svd(np.moveaxis(A, k, 0).reshape(shape[k], -1), compute_uv=False)
+            if sv[ranks[k] - 1] < 1e-3 * sv[0] or (len(sv) > ranks[k] and sv[ranks[k]] > 1e-12 * sv[0]):
+                ok = False
+        if ok:
+            return A, ranks
+
+
 def full_spec(A):
     return {'t': 'full', 'sh': list(A.shape), 'd': A.ravel().tolist()}
 
@@ -642,6 +674,38 @@ def run_numeric(ctx, thorough):
         cases.append({'k': 'grou', 'A': full_spec(A), 'R': rng.randint(1, r_ + 1), 'tol': max(t, 1e-10 * nrm), 'npseed': seed()})
         cases.append({'k': 'gta', 'A': full_spec(A), 'R': rng.randint(1, r_ + 1), 'tol': max(t, 1e-10 * nrm),
                       'rtol': max(rng.choice(decades), 1e-10), 'npseed': seed()})
+    # greedy Tucker approximation on rank profiles with early-exhausted modes and singleton axes: with
+    # R = sum(r_j - 1) + 1 steps every basis can be completed (each step extends at least one basis while
+    # the error is non-zero), so the exact multilinear rank must be reproduced
+    # (tolerances are relative to ||A||: the predicate is scale invariant, so A is also scaled by 2^+-10)
+    for q in range(45 * rep):
+        A, ranks = rank_profile_tensor(rng, singleton=(None if q % 2 else rng.randrange(4)))
+        A = A * (1.0, 1024.0, 1.0 / 1024.0)[q % 3]
+        nrm = fro(A)
+        Rfull = sum(r_ - 1 for r_ in ranks) + 1
+        Rq = Rfull if q % 4 else rng.randint(1, Rfull)
+        cases.append({'k': 'gta', 'A': full_spec(A), 'R': Rq, 'tol': 1e-10 * nrm, 'rtol': 1e-10, 'npseed': seed(),
+                      'ranks': ranks, 'Rfull': Rfull})
+    # singleton axes for the other greedy / cross approximations
+    for q in range(4 * rep):
+        d = rng.choice([2, 3, 4])
+        shp = [rng.randint(2, 5) for _ in range(d)]
+        shp[rng.randrange(d)] = 1
+        r_ = rng.randint(1, 2)
+        A = generic_lowrank(rng, shp, 1) if True else None
+        cases.append({'k': 'als1', 'A': full_spec(A), 'npseed': seed()})
+        B = np.zeros(shp)
+        for _ in range(r_):
+            B = B + generic_lowrank(rng, shp, 1)
+        nb = fro(B)
+        cases.append({'k': 'grou', 'A': full_spec(B), 'R': r_ + 1, 'tol': 1e-8 * nb, 'npseed': seed()})
+    for shp in ([1, 6], [7, 1], [1, 1]):
+        A = generic_lowrank(rng, shp, 1)
+        for kind in ('aca', 'aca_lr'):
+            cases.append({'k': kind, 'X': full_spec(A), 'tol': 1e-11, 'maxiter': 50, 'r': 1, 'npseed': seed(), 'gen': False})
+    for shp in ([1, 5, 4], [5, 1, 4], [5, 4, 1]):
+        A = generic_lowrank(rng, shp, 1)
+        cases.append({'k': 'aca3d', 'X': full_spec(A), 'tol': 1e-11, 'maxiter': 30, 'r': 1, 'npseed': seed(), 'lr': False})
     res = yield ('num', cases)
     if res is None:
         return
@@ -732,8 +796,26 @@ def run_numeric(ctx, thorough):
                 bad = '%s stopped with error %g >= tol %g before the rank limit %d' % (k, errs[-1], c['tol'], c['R'])
             if len(errs) > c['R']:
                 bad = '%s exceeds the rank limit' % k
+            if k == 'gta' and 'ranks' in c and not bad:
+                # exact multilinear rank (r_j): after len(errs) steps every basis must have min(steps, r_j)
+                # columns (generic factors), the bases stay orthonormal, and R = Rfull steps reproduce A
+                want_R = [min(len(errs), r_) for r_ in c['ranks']]
+                lim = max(c['tol'], c['rtol'] * nrm)
+                if c['R'] >= c['Rfull'] and not errs[-1] < lim:
+                    bad = 'gta with R=%d >= sum(r_j-1)+1 does not reproduce a tensor of multilinear rank %s: history %s, ranks reached %s' % (
+                        c['R'], c['ranks'], ['%.3g' % e for e in errs], r['R'])
+                elif list(r['R']) != want_R:
+                    bad = 'gta: after %d steps the bases have %s columns, a tensor of multilinear rank %s needs %s' % (
+                        len(errs), r['R'], c['ranks'], want_R)
+                else:
+                    for U in r['Us']:
+                        Um = G.mat_np(U)
+                        if dev('gta-orthonormal', float(np.max(np.abs(Um.T @ Um - np.eye(Um.shape[1])))), 1e-4):
+                            bad = 'gta basis is not orthonormal (the projection is not a projection)'
             if dev(k + '-history', abs(errs[-1] - fro(arr(r['dense']) - D)), 1e-9 * max(nrm, 1.0)):
                 bad = '%s: last history entry %g is not the error of the returned tensor %g' % (k, errs[-1], fro(arr(r['dense']) - D))
+        if not bad and r.get('input_unchanged') is False:
+            bad = '%s changed its input in place' % k
         if bad:
             ctx.report('impl:numeric:%s' % k, bad, {'case': c, 'impl': {kk: v for kk, v in r.items() if kk not in ('dense',)},
                                                     'how': 'harness/impl/c18_driver.py mode num'})
